@@ -135,6 +135,8 @@ pub struct Execution {
     pub src: SharedSrc,
     /// bytes the source had handed out at the moment each item was emitted
     pub handed_out_at_item: Vec<usize>,
+    /// largest stream position at which the subject had asked the source for more at that moment
+    pub asked_at_item: Vec<usize>,
 }
 
 pub fn execute(subject: &dyn Subject, cfg: SourceCfg<'_>, chunk_size: Option<usize>, forced: Vec<(u32, u32)>) -> Execution {
@@ -147,6 +149,7 @@ pub fn execute_via(subject: &dyn Subject, cfg: SourceCfg<'_>, chunk_size: Option
     let (source, st) = ScriptedSource::new(cfg, forced);
     let mut items = Vec::new();
     let mut handed = Vec::new();
+    let mut asked = Vec::new();
     let st2 = st.clone();
     let res = catch(|| {
         let mut reader = match via_buf_reader {
@@ -163,6 +166,7 @@ pub fn execute_via(subject: &dyn Subject, cfg: SourceCfg<'_>, chunk_size: Option
         }
         subject.run(reader, &mut |item| {
             handed.push(st2.borrow().pos);
+            asked.push(st2.borrow().max_pos_at_call);
             items.push(item);
         })
     });
@@ -170,7 +174,7 @@ pub fn execute_via(subject: &dyn Subject, cfg: SourceCfg<'_>, chunk_size: Option
         Ok(end) => end,
         Err((msg, loc)) => End::Panic { msg, loc: short_loc(&loc) },
     };
-    Execution { items, end, src: st, handed_out_at_item: handed }
+    Execution { items, end, src: st, handed_out_at_item: handed, asked_at_item: asked }
 }
 
 /// The document sits behind `skip` envelope bytes: the harness reads and advances over them, then
@@ -196,7 +200,7 @@ pub fn execute_embedded(subject: &dyn Subject, cfg: SourceCfg<'_>, chunk_size: O
         Ok(end) => end,
         Err((msg, loc)) => End::Panic { msg, loc: short_loc(&loc) },
     };
-    Execution { items, end, src: st, handed_out_at_item: handed }
+    Execution { items, end, src: st, handed_out_at_item: handed, asked_at_item: vec![] }
 }
 
 /// Convert a flussab style error (`SyntaxError` / io error) into an `End`.
